@@ -296,7 +296,9 @@ fn load_files(files: &[Option<Vec<u8>>]) -> Loaded {
     let k = COUNTER.fetch_add(1, Ordering::SeqCst);
     let mut paths = vec![];
     for (i, f) in files.iter().enumerate() {
-        let p = dir.join(format!("c{}_{}.xml", k, i));
+        // names whose lexicographic order is the REVERSE of the configured order (the order of the path list is
+        // what decides which duplicate definition wins)
+        let p = dir.join(format!("c{}_{}{}.xml", k, (b'z' - (i % 26) as u8) as char, i));
         match f {
             Some(b) => {
                 std::fs::write(&p, b).expect("write fibex file");
@@ -569,8 +571,52 @@ fn op_specenc(toks: &[Tok], _prop: &str) -> Outcome {
     Outcome { result: w.0, oracle: vec![] }
 }
 
+/// 34 BIGREST: a serialised message followed by n zero bytes, n up to beyond 2^32 (the buffer is allocated
+/// zero-filled and never touched behind the message, so this is cheap); the result must be the message and exactly
+/// n remaining bytes — "nothing that follows the message in the buffer influences the result"
+fn op_bigrest(toks: &[Tok], prop: &str) -> Outcome {
+    use dlt_core::parse::{dlt_message, ParsedMessage};
+    let mut r = R::new(toks);
+    let m = r.msg();
+    let n = r.n() as usize;
+    let mut w = W::new();
+    let mut oracle = vec![];
+    let wf = crate::genmsg::wf_message(&m);
+    w.bool(wf);
+    if !wf {
+        return Outcome { result: w.0, oracle };
+    }
+    match guarded(|| m.as_bytes()) {
+        None => w.n(1),
+        Some(bytes) => {
+            w.n(0);
+            let sh = m.storage_header.is_some();
+            let mut buf = vec![0u8; bytes.len() + n];
+            buf[..bytes.len()].copy_from_slice(&bytes);
+            let res = guarded(|| dlt_message(&buf, None, sh).map(|(rest, pm)| (rest.len(), pm)));
+            match &res {
+                None => w.n(4),
+                Some(Ok((rest, pm))) => {
+                    w.n(0);
+                    crate::ops::w_parsed(&mut w, pm);
+                    w.n(*rest as u128);
+                }
+                Some(Err(e)) => crate::ops::w_parse_err(&mut w, e),
+            }
+            if wf && (prop == "C01" || prop == "C04") {
+                let ok = matches!(&res, Some(Ok((rest, ParsedMessage::Item(_)))) if *rest == n);
+                if !ok {
+                    oracle.push(("trailing_bytes_do_not_matter".into(), format!("{} zero bytes behind the message: {}", n, match &res { Some(Ok((r, _))) => format!("Ok, rest {}", r), Some(Err(e)) => format!("{:?}", e), None => "panic".into() })));
+                }
+            }
+        }
+    }
+    Outcome { result: w.0, oracle }
+}
+
 pub fn run_case5(prop: &str, op: u32, toks: &[Tok]) -> Outcome {
     match op {
+        34 => op_bigrest(toks, prop),
         60 => op_specdec(toks, prop),
         61 => op_specenc(toks, prop),
         42 => op_real(toks, prop),
